@@ -30,11 +30,108 @@ def rdRecv : Rd Pred.C02.Recv := do
   let h ← Rd.resC rdHdrOk; let p ← Rd.resC rdPktOk
   pure { hun := h, pun := p }
 
+/-! #### relaxed predicate
+
+  `Pred.C02.pred` demands that the payload and every extension value are SUB-SLICES of the input
+  (pointer offsets; the harness reports -2 for a value that lies outside the buffer).  The text only
+  says they "are exactly the corresponding input bytes", which a parser that copies satisfies too.
+  The variant below compares by value: the payload is the input from the reported header length to
+  len − padding (no demand on its address); an extension value that does not alias the input must
+  occur somewhere inside the header part `[0, n)` of the input.  Bounds, the length equation, no
+  panic and reused = fresh are as in `Pred.C02.pred`, and `pred_relax` shows it is implied by it. -/
+namespace Relax
+open Rtp.Pred.C02
+
+/-- `v` stands at some offset of `buf` inside `[0, n)` -/
+def occursIn (buf : Bytes) (n : Nat) (v : Bytes) : Bool :=
+  (List.range (n + 1 - v.length)).any fun i => slice buf i (i + v.length) == v
+
+def locsOkR (buf : Bytes) (n : Nat) : List Ext → List Int → Bool
+  | [], [] => true
+  | e :: es, o :: os =>
+    (e.payload.isEmpty ||
+      (if 0 ≤ o then
+        decide (o.toNat + e.payload.length ≤ n) && e.payload == slice buf o.toNat (o.toNat + e.payload.length)
+       else occursIn buf n e.payload)) &&
+    locsOkR buf n es os
+  | _, _ => false
+
+def hdrHoldsR (buf : Bytes) (r : Res HdrOk) : Bool :=
+  match r with
+  | .panic => false
+  | .err _ => true
+  | .ok a => a.n ≤ buf.length && locsOkR buf a.n a.h.exts a.locs
+
+def pktHoldsR (buf : Bytes) (hun : Res HdrOk) (r : Res PktOk) : Bool :=
+  match r with
+  | .panic => false
+  | .err _ => true
+  | .ok b =>
+    match hun with
+    | .ok a =>
+      a.n + b.p.payload.length + b.p.paddingSize.toNat == buf.length &&
+      b.p.payload == slice buf a.n (a.n + b.p.payload.length) &&
+      locsOkR buf a.n b.p.header.exts b.locs
+    | _ => false
+
+def recvHoldsR (buf : Bytes) (r : Recv) : Bool := hdrHoldsR buf r.hun && pktHoldsR buf r.hun r.pun
+
+def predR (buf : Bytes) (_prevs : List Bytes) (o : Obs) : Bool :=
+  recvHoldsR buf o.fresh && o.reused == o.fresh
+
+theorem locsOk_relax (buf : Bytes) (n : Nat) (es : List Ext) (os : List Int) :
+    locsOk buf n es os = true → locsOkR buf n es os = true := by
+  induction es generalizing os with
+  | nil => cases os <;> simp [locsOk, locsOkR]
+  | cons e es ih =>
+    cases os with
+    | nil => simp [locsOk]
+    | cons o os =>
+      simp only [locsOk, locsOkR, Bool.and_eq_true, Bool.or_eq_true, decide_eq_true_eq]
+      rintro ⟨h1, h2⟩
+      refine ⟨?_, ih os h2⟩
+      rcases h1 with h1 | ⟨⟨h0, hb⟩, hv⟩
+      · exact .inl h1
+      · refine .inr ?_
+        rw [if_pos h0]
+        simp [hb, hv]
+
+theorem hdrHolds_relax (buf : Bytes) (r : Res HdrOk) : hdrHolds buf r = true → hdrHoldsR buf r = true := by
+  unfold hdrHolds hdrHoldsR
+  cases r with
+  | ok a =>
+    simp only [Bool.and_eq_true]
+    exact fun ⟨h1, h2⟩ => ⟨h1, locsOk_relax _ _ _ _ h2⟩
+  | err e => simp
+  | panic => simp
+
+theorem pktHolds_relax (buf : Bytes) (hun : Res HdrOk) (r : Res PktOk) :
+    pktHolds buf hun r = true → pktHoldsR buf hun r = true := by
+  unfold pktHolds pktHoldsR
+  cases r with
+  | ok b =>
+    cases hun with
+    | ok a =>
+      simp only [Bool.and_eq_true]
+      exact fun ⟨⟨⟨h1, h2⟩, _⟩, h4⟩ => ⟨⟨h1, h2⟩, locsOk_relax _ _ _ _ h4⟩
+    | err e => simp
+    | panic => simp
+  | err e => simp
+  | panic => simp
+
+theorem pred_relax (buf : Bytes) (prevs : List Bytes) (o : Obs) :
+    pred buf prevs o = true → predR buf prevs o = true := by
+  unfold pred holds predR recvHolds recvHoldsR
+  simp only [Bool.and_eq_true]
+  exact fun ⟨⟨h1, h2⟩, h3⟩ => ⟨⟨hdrHolds_relax _ _ h1, pktHolds_relax _ _ _ h2⟩, h3⟩
+
+end Relax
+
 def c02parse : Handler :=
   mkHandler (do let b ← Rd.bytes; let prev ← Rd.list Rd.bytes; pure (b, prev))
     (do let f ← rdRecv; let r ← rdRecv; pure ({ fresh := f, reused := r } : Pred.C02.Obs))
     (fun (b, prev) => Pred.C02.modelObs b prev)
-    (fun (b, prev) o => Pred.C02.pred b prev o)
+    (fun (b, prev) o => Relax.predR b prev o)
 
 /-! ### C05
 
@@ -85,11 +182,26 @@ def rdC05Obs : Rd Pred.C05.Obs := do
   let fin ← rdFinal
   pure { startOk := ok, start := start, init := init, steps := steps, final := fin }
 
+/-- the quantifier of C05, beyond `Pred.C05.wf` (which the theorems use):
+    * the start state's profile is not one of the two-byte profiles with appbits 0x1001–0x100F, which
+      the library takes for legacy (see `appbitsProfile`);
+    * the start state lists every id once: a wire image may carry the same id twice, and "last value
+      per id, first-insertion order, deleted ids absent" does not determine what Set/Del do to the
+      second entry (Spec/OrderedMap picks first-entry-only; the text does not);
+    * "value lengths 0-300": no SetExtension value is longer than 300 bytes. -/
+def c05Quantified (s : Pred.C05.Start) (ops : List Rtp.Spec.OrderedMap.Op) : Bool :=
+  (match Pred.C05.startHeader s with
+    | some h => !hdrAppbits h && decide ((Pred.C05.view h).map (·.1)).Nodup
+    | none => false) &&
+  ops.all fun op => match op with
+    | .set _ v => v.length ≤ 300
+    | .del _ => true
+
 def c05ops : Handler :=
   mkHandler (do let s ← rdStart; let ops ← Rd.list rdOp; pure (s, ops)) rdC05Obs
     (fun (s, ops) => Pred.C05.modelObs s ops)
     (fun (s, ops) o => Pred.C05.pred s ops o)
-    (fun (s, ops) => Pred.C05.wf s && Pred.C05.finalWf s ops)
+    (fun (s, ops) => Pred.C05.wf s && Pred.C05.finalWf s ops && c05Quantified s ops)
 
 def handlers : List (String × Handler) := [("c02.parse", c02parse), ("c05.ops", c05ops)]
 end Rtp.Kinds.CoreB
